@@ -39,9 +39,11 @@ PROPS = {
         "assumptions": ["process-crash model: effects reach the OS in program order; create/set_len/unlink atomic"],
     },
     "C03": {
-        "theorems": [],
-        "examples": 0,
-        "level": "fault_enumeration",
+        "theorems": ["MRL.C03.unlink_after_sync", "MRL.C03.unlink_after_sync_open", "MRL.C03.unlink_after_sync_split",
+                     "MRL.C03.create_synced", "MRL.C03.delete_synced", "MRL.C03.persist_flush", "MRL.C03.persist_flushAndFsync",
+                     "MRL.C03.always_persists", "MRL.C03.onDelay_persists", "MRL.C03.buffer_empty_of_flushedAtEnd",
+                     "MRL.C03.flush_then_unlink", "MRL.C03.flush_then_unlink_image"],
+        "examples": 4,
         "kinds": "ODSFRE",
         "campaigns": {"quick": [("crash-policies", 20, 60)], "thorough": [("crash-policies", 240, 120)]},
         "rule": "as C02 under all seven policies (DoNothing, OnDelay never/always due x Flush/FlushAndFsync, Always x 2) with explicit persist "
@@ -73,9 +75,10 @@ PROPS = {
         "assumptions": ["positions < 2^64-1 (Fits); the in-memory ring buffer offsets are not modelled (payload kept per record)"],
     },
     "C06": {
-        "theorems": ["MRL.C17.files_grow_by_succ", "MRL.C17.files_accounted", "MRL.C17.cur_tracked"],
-        "examples": 0,
-        "module": "MRL.Props.C17",
+        "theorems": ["MRL.C06.filesOk_step", "MRL.C06.filesOk_run", "MRL.C06.C06_reclaim", "MRL.C06.C06_truncate", "MRL.C06.C06_delete",
+                     "MRL.C06.C06_open", "MRL.C06.no_premature_release", "MRL.C17.files_accounted"],
+        "examples": 2,
+        "modules": ["MRL.Props.C06", "MRL.Props.C17"],
         "kinds": "FDE",
         "campaigns": {"quick": [("ops", 24, 110)], "thorough": [("ops", 300, 220), ("policy-ops", 100, 200)]},
         "rule": "ops campaign; after every truncate/delete/open: the directory listing is a contiguous run ending at the file being written, no "
